@@ -46,12 +46,18 @@ Definition strip (a : assets) : assets := filter nonzero_entry a.
 
 (** Constructors (none of them removes a zero amount). *)
 Definition a_empty : assets := ∅.
-Definition from_class_and_amount (c : asset_class) (z : Z) : assets := {[ c := z ]}.
 Definition from_naked_amount (z : Z) : assets := {[ Naked := z ]}.
 Definition from_named_asset (n : bytes) (z : Z) : assets :=
   match n with [] => from_naked_amount z | _ => {[ Named n := z ]} end.
 Definition from_defined_asset (p n : bytes) (z : Z) : assets :=
   match p with [] => from_named_asset n z | _ => {[ Defined p n := z ]} end.
+(** from_class_and_amount: the class is put in the form the other constructors use *)
+Definition from_class_and_amount (c : asset_class) (z : Z) : assets :=
+  match c with
+  | Naked => from_naked_amount z
+  | Named n => from_named_asset n z
+  | Defined p n => from_defined_asset p n z
+  end.
 Definition from_asset (p n : option bytes) (z : Z) : assets :=
   match p, n with
   | Some p, Some n => from_defined_asset p n z
